@@ -31,7 +31,7 @@ Qed.
 Lemma ei_obs_eqb_refl o : ei_obs_eqb o o = true.
 Proof.
   unfold ei_obs_eqb. rewrite cp_obs_list_refl, !str_eqb_refl. cbn [andb].
-  destruct (eo_more o) as [[[[t f] p] r]|]; [|reflexivity].
+  destruct (eo_more o) as [[[[[t f] p] r] c]|]; [|reflexivity].
   rewrite !str_eqb_refl, rtb_eqb_refl. reflexivity.
 Qed.
 
@@ -104,7 +104,7 @@ Proof.
     unfold ei_formatted in FMT.
     change (ei_exc_only (std_type e) (std_msg e)) with (exc_text (std_type e) (std_msg e)) in *.
     rewrite FMT, str_eqb_refl. cbn [andb].
-    change M_nl with NL. rewrite app_assoc, FMT. apply str_eqb_refl. }
+    change M_nl with NL. rewrite app_assoc, FMT, !str_eqb_refl. reflexivity. }
   rewrite CL. cbn [andb orb].
   (* reparse *)
   destruct (wf P (std_tb P fs e) && src_consistent (map (std_frame P) fs)) eqn:W; cbn [negb orb]; [|reflexivity].
@@ -174,5 +174,5 @@ Proof.
   unfold ei_formatted in FMT.
   change (ei_exc_only (std_type e) (ei_msg e)) with (exc_text (std_type e) (ei_msg e)) in *.
   rewrite FMT, !str_eqb_refl. cbn [andb].
-  change M_nl with NL. rewrite app_assoc, FMT. apply str_eqb_refl.
+  change M_nl with NL. rewrite app_assoc, FMT, !str_eqb_refl. reflexivity.
 Qed.
